@@ -558,7 +558,22 @@ impl World for W5 {
                 rules.push(r);
             }
             let codes = codes_of(&rules);
-            let request = Probe {
+            // two requests out of three are derived from one of the rules (all trigger kinds, repeated header lines in
+            // another case, marketing parameters, odd methods and schemes), the others from a small fixed set
+            let derived = if rng.chance(2, 3) {
+                let k = rng.below(rules.len());
+                let mut p = crate::w1::probe_from_rule(rng, &rules[k]);
+                if rng.chance(1, 4) {
+                    // one more line for a header the request already carries
+                    if let Some((n, _)) = p.headers.first().cloned() {
+                        p.headers.push((n, rng.pick_str(&["fr", "en", "ES", "a, b", ""])));
+                    }
+                }
+                Some(p)
+            } else {
+                None
+            };
+            let request = if let Some(p) = derived { p } else { Probe {
                 path: rng.pick_str(&["/blog/hello", "/blog/a-b?utm_source=x", "/a", "/", "/u/42", "/blog/post-1"]),
                 host: rng.pick(&[None, Some("example.com".to_string()), Some("abc.example.com".to_string())]).clone(),
                 scheme: rng.pick(&[None, Some("http".to_string()), Some("https".to_string())]).clone(),
@@ -566,7 +581,7 @@ impl World for W5 {
                 headers: if rng.coin() { vec![("X-A".to_string(), "fr".to_string())] } else { Vec::new() },
                 ip: if rng.chance(1, 3) { None } else { Some(rng.pick_str(crate::w1::IPS)) },
                 dt_ns: 0,
-            };
+            } };
             W5Case {
                 config,
                 rules,
